@@ -328,3 +328,11 @@ _patch("C05", "text", "the extracted boolean spec is also evaluated on the imple
        "by its prefix, may arrive.")
 _patch("C13", "text", "Tie:", "Tie (besides the engines below, the concurrent batches of mode conc: peer address, hardware address and local address of a query are "
        "sampled when the upstream is called and when it is done - they are the request's own and must not change while other requests are parsed):")
+_patch("C17", "text", "Engine fwdtext ties that model to the code:",
+       "The profile option has the same treatment (Model/ProfText.v: newConfig's cut at the first '=', trimming, and the order prefix / hardware "
+       "address / interface; profile.String): C17_profile_text proves the print/parse round trip for every rule newConfig can produce under four "
+       "stated facts about package net (a printed prefix or hardware address parses to itself, contains no '=' and no surrounding white space, a "
+       "printed hardware address is not a prefix); engine proftext runs the real Profiles.Set / String on prefixes in non-canonical spellings, "
+       "hardware addresses in three notations, interface names, padded and multi-'=' values, compares ID and printed form with the extracted "
+       "parser (package net as an oracle taken from the implementation's own classification of that value) and checks that String() set again "
+       "gives the same line and replaces the rule it came from. Engine fwdtext ties that model to the code:")
